@@ -1029,7 +1029,7 @@ func genC14(tier string, seed uint64, n int, e *Emitter) {
 		}
 	}
 	if n == 0 {
-		n = 440
+		n = 300
 		if tier == "thorough" {
 			n = 6000
 		}
@@ -1039,13 +1039,16 @@ func genC14(tier string, seed uint64, n int, e *Emitter) {
 		Coq: fmt.Sprintf("KeysCase %s %s", tb.coqKeys(), tb.coqShape()), NT: true, Tags: []string{"keys"}})
 
 	// type tracking (harness/c14ti.go)
-	c14GenTypeInfo(tier, seed, n/4, tb, e)
+	c14GenTypeInfo(tier, seed, n/5, tb, e)
 
 	corpus := c14Corpus()
 	idx := uint64(0)
 	// corpus: every document under a few policies, all forms, parallel, and the root-skip probe
 	for _, d := range corpus {
-		nv, np := 3, []int{1, 3}
+		nv, np := 2, []int{2}
+		if len(d.src) > 1500 {
+			nv = 1 // the kitchen-sink documents are large
+		}
 		if tier == "thorough" {
 			nv, np = 6, []int{1, 2, 3, 4}
 		}
